@@ -38,6 +38,8 @@ impl EventStore {
             .truncate(false)
             .create(true)
             .open(event_map_file)?;
+        #[cfg(feature = "verif")]
+        crate::verif::point("esnew:after_open");
 
         // Get it's size
         let metadata = event_map_file.metadata()?;
@@ -52,10 +54,14 @@ impl EventStore {
             // grow to initial size
             len = EVENT_MAP_CHUNK;
             event_map_file.set_len(EVENT_MAP_CHUNK as u64)?;
+            #[cfg(feature = "verif")]
+            crate::verif::point("esnew:after_set_len");
         }
 
         // Memory map it
         let event_map = unsafe { MmapAppend::new(&event_map_file, new)? };
+        #[cfg(feature = "verif")]
+        crate::verif::point("esnew:after_map");
 
         Ok(EventStore {
             event_map_file,
@@ -85,6 +91,8 @@ impl EventStore {
     // It does NOT record the event into any indexes
     // But it does grow the file if needed and returns the offset where it was stored
     pub(crate) fn store_event(&self, event: &Event) -> Result<usize, Error> {
+        #[cfg(feature = "verif")]
+        crate::verif::point("es:enter");
         // Align to 8 bytes
         let mut end = self.event_map.get_end();
         if end % 8 != 0 {
@@ -92,11 +100,26 @@ impl EventStore {
             end += padding;
             assert_eq!(end % 8, 0);
             let _ = self.event_map.append(padding, |_| Ok(padding))?;
+            #[cfg(feature = "verif")]
+            crate::verif::point("es:after_padding");
         }
 
         let event_size = event.len();
 
         loop {
+            // A half-copied append: half of the bytes are written beyond an unchanged end
+            // marker, as a process killed in the middle of the copy would leave them.
+            #[cfg(feature = "verif")]
+            if crate::verif::active() {
+                let half = event_size / 2;
+                let half_done = self.event_map.append(event_size, |dst| {
+                    dst[..half].copy_from_slice(&event.as_bytes()[..half]);
+                    Ok(0)
+                });
+                if half_done.is_ok() {
+                    crate::verif::point("es:half_copied");
+                }
+            }
             let result = self.event_map.append(event_size, |dst| {
                 event.copy(dst).map_err(std::io::Error::other)
             });
@@ -113,14 +136,28 @@ impl EventStore {
                             };
 
                             // Grow the file
+                            #[cfg(feature = "verif")]
+                            if crate::verif::fail("es:set_len") {
+                                return Err(crate::verif::injected("es:set_len"));
+                            }
                             self.event_map_file.set_len(new_file_len as u64)?;
+                            #[cfg(feature = "verif")]
+                            crate::verif::point("es:after_set_len");
 
                             // Resize the memory map
+                            #[cfg(feature = "verif")]
+                            if crate::verif::fail("es:resize") {
+                                return Err(crate::verif::injected("es:resize"));
+                            }
                             self.event_map.resize(new_file_len)?;
+                            #[cfg(feature = "verif")]
+                            crate::verif::point("es:after_resize");
 
                             // Save this new length
                             self.event_map_file_len
                                 .store(new_file_len, Ordering::Relaxed);
+                            #[cfg(feature = "verif")]
+                            crate::verif::point("es:after_len_store");
 
                             // Try again
                             continue;
